@@ -19,7 +19,7 @@ def sh(cmd, cwd=None, timeout=3600):
 
 
 def main():
-    ids = sys.argv[1:] or sorted(d for d in os.listdir(SEEDED) if re.fullmatch(r"C\d\d", d))
+    ids = [a for a in sys.argv[1:] if not a.startswith("--")] or sorted(d for d in os.listdir(SEEDED) if re.fullmatch(r"C\d\d", d))
     res = {}
     for pid in ids:
         for k in sorted(os.listdir(os.path.join(SEEDED, pid))):
@@ -48,6 +48,19 @@ def main():
                 rc, out = sh("PYTHONPATH=/repo/src /venv/bin/python %s/demo.py" % md, cwd="/repo", timeout=600)
                 r["demo_clean"] = rc
             res[pid + "/" + k] = r
+            if "--record" in sys.argv:
+                # keep the outcome with the seeded change (history of verdicts, last one is `result`)
+                mp = os.path.join(md, "meta.json")
+                meta = json.load(open(mp))
+                v = ("caught by ./check %s (quick) %s" % (pid, "as a broken correspondence only (no-failing-input-found)" if r.get("no_failing_input") else "with a failing input")
+                     if r.get("check_exit") == 1 else "MISSED by ./check %s (quick)" % pid if r.get("check_exit") == 0 else "check error")
+                hist = meta.get("history", [])
+                first = hist[0].split(":")[0] if hist else None
+                if not hist or not hist[-1].startswith(v):
+                    hist.append(v)
+                meta["history"] = hist
+                meta["result"] = v if len(hist) == 1 else "first run: %s; after strengthening the check: %s" % (first, v)
+                json.dump(meta, open(mp, "w"), indent=1)
             verdict = "caught" + (" (no failing input)" if r.get("no_failing_input") else "") if r.get("check_exit") == 1 else "MISSED" if r.get("check_exit") == 0 else "error"
             print("%s/%s: %s; suite: %s; demo %s/%s" % (pid, k, verdict, r.get("suite"), r.get("demo_changed"), r.get("demo_clean")), flush=True)
     os.makedirs(os.path.join(ROOT, "out"), exist_ok=True)
